@@ -8,6 +8,7 @@ from weave import Contract, LostAnchor
 
 VERIF = weave.VERIF
 REPO = weave.REPO
+OUT = os.environ.get("VERIF_OUT", VERIF)   # where evidence/, logs/, replays/ are written (development aid: seeded runs)
 NCPU = int(os.environ.get("VERIF_JOBS", "16"))
 
 # --------------------------------------------------------------------------------------------
@@ -167,6 +168,8 @@ def tree_obs(name, prop, setup, lanes, w, *, op="+", fn="", desc="", stubs=("sse
     full = " && ".join("__verif::%s%d_%d(%s, %s)" % (helper, k, w, r, ", ".join(ts)) for (r, ts) in lanes) if k >= 2 else " && ".join("__verif::leq%d(%s, %s)" % (w, r, ts[0]) for (r, ts) in lanes)
     full_body = setup + '\n    check!(%s, "%s of the terms in some association order");' % (full, "sum" if op == "+" else "product") + extra_check
     trees = load_trees()
+    if name not in trees and "_fma_" in name and name.replace("_fma_", "_sse2_") in trees:
+        trees[name] = trees[name.replace("_fma_", "_sse2_")]  # same source file, same order
     ntrees = len(assoc_trees(lanes[0][1], op))
     out = []
     if PROBE and name not in trees and ntrees > 1:
@@ -565,7 +568,7 @@ class Session:
         self.undecided = []
         self.excluded = []
         self.deferred = []
-        self.logs_dir = os.path.join(VERIF, "logs", prop)
+        self.logs_dir = os.path.join(OUT, "logs", prop)
         shutil.rmtree(self.logs_dir, ignore_errors=True)
         os.makedirs(self.logs_dir, exist_ok=True)
 
@@ -831,7 +834,7 @@ class Session:
                     rec["verdict"] = "known-finding"
                     self.known_hits.append({"ob": o.name, "config": config, "what": known[0]["what"]})
                 else:
-                    rp = os.path.join(VERIF, "replays", self.prop)
+                    rp = os.path.join(OUT, "replays", self.prop)
                     os.makedirs(rp, exist_ok=True)
                     path = os.path.join(rp, "%s.%s.json" % (o.name, config))
                     json.dump({"property": self.prop, "obligation": o.name, "config": config, "function": o.fn, "description": o.desc,
@@ -871,7 +874,7 @@ class Session:
                 rec["verdict"] = "known-finding"
                 self.known_hits.append({"ob": o.name, "config": config, "what": k["what"]})
                 return
-        rp = os.path.join(VERIF, "replays", self.prop)
+        rp = os.path.join(OUT, "replays", self.prop)
         os.makedirs(rp, exist_ok=True)
         path = os.path.join(rp, "%s.%s.json" % (o.name, config))
         json.dump({"property": self.prop, "obligation": o.name, "config": config, "function": o.fn,
@@ -1003,8 +1006,8 @@ class Session:
             cov.update(extra_cov)
         ev = {"property_id": self.prop, "tier": self.tier, "seed": self.seed, "level": "proof", "coverage": cov,
               "assumptions": list(self.assumptions), "wall_s": round(wall, 2), "violations": len(self.violations)}
-        os.makedirs(os.path.join(VERIF, "evidence"), exist_ok=True)
-        json.dump(ev, open(os.path.join(VERIF, "evidence", "%s.json" % self.prop), "w"), indent=1)
+        os.makedirs(os.path.join(OUT, "evidence"), exist_ok=True)
+        json.dump(ev, open(os.path.join(OUT, "evidence", "%s.json" % self.prop), "w"), indent=1)
         for k in self.known_hits:
             print("KNOWN-FINDING: property=%s %s [obligation %s, config %s]" % (self.prop, k["what"], k["ob"], k["config"]))
         for v in self.violations:
